@@ -10,12 +10,13 @@ import ILV.Lemmas.Catalog
 namespace ILV.Props.C16
 open ILV ILV.FS ILV.Cat
 
-/-- a crash + reopen is acceptable iff the engine opens and each catalog (rules, schemas) is the one of before or
-    of after the operation in flight (for a crash between operations both are the acknowledged catalogs). -/
+/-- a crash + reopen is acceptable iff the engine opens, each persistent catalog (rules, persistent schemas) is the
+    one of before or of after the operation in flight (for a crash between operations both are the acknowledged
+    catalogs), and no session schema survives. -/
 def okOut : Out → Bool
   | .reboot old new (some m) =>
     (decide (m.rules = old.rules) || decide (m.rules = new.rules)) &&
-    (decide (m.schemas = old.schemas) || decide (m.schemas = new.schemas))
+    (decide (m.schemas = old.schemas) || decide (m.schemas = new.schemas)) && decide (m.session = [])
   | .reboot _ _ none => false
   | .ack _ _ => true
 
@@ -23,10 +24,10 @@ theorem okOut_of_outOk {o : Out} (h : outOk o) : okOut o = true := by
   cases o with
   | ack a s => rfl
   | reboot old new got =>
-    obtain ⟨m, hg, hr, hs⟩ := h
+    obtain ⟨m, hg, hr, hs, hss⟩ := h
     subst hg
     simp only [okOut, Bool.and_eq_true, Bool.or_eq_true, decide_eq_true_eq]
-    exact ⟨hr, hs⟩
+    exact ⟨⟨hr, hs⟩, hss⟩
 
 /-- **C16** (full statement). For every history of catalog operations, every crash point — between operations or
     after any file-system step inside one — and every way the unsynced data of every file (the temp files included)
@@ -55,25 +56,23 @@ theorem C16_always_reopens (h : List HItem) : ∀ o ∈ run {} h, ∀ old new go
   subst he; subst hn
   simp [okOut] at this
 
-def opsOf : List HItem → List COp
-  | [] => []
-  | .op o :: rest => o :: opsOf rest
-  | _ :: rest => opsOf rest
-
 def plain : HItem → Bool
   | .op _ => true
   | .restart _ => true
   | _ => false
 
-/-- **C16, durability of acknowledgements.** Operations and crashes *between* operations (with arbitrary tearing of
-    unsynced data) only: the engine always reopens, and after any such history memory — and what a further restart
-    reloads — is exactly the result of applying the acknowledged operations in order: registrations minus removals,
-    for rules and schemas alike. -/
+/-- **C16, durability of acknowledgements.** Operations (persistent *and* session-schema operations, in any order,
+    with any shadowing) and crashes *between* operations (with arbitrary tearing of unsynced data) only: the engine
+    always reopens, and after any such history memory is exactly the reference state `specRunH` — operations applied
+    in order, every restart forgetting the session schemas and nothing else — and what a further restart reloads is
+    that state's rules and persistent schemas (acknowledged registrations minus acknowledged removals), with no
+    session schema. -/
 theorem C16_acked_durable (h : List HItem) (hp : h.all plain = true) (cuts : List (Path × Cut)) :
-    ∃ st, finalSt {} h = some st ∧ st.mem = specRun {} (opsOf h) ∧
-      recover (crash st.disk (cutsOf cuts)) = some (specRun {} (opsOf h)) := by
+    ∃ st, finalSt {} h = some st ∧ st.mem = specRunH {} h ∧
+      recover (crash st.disk (cutsOf cuts)) =
+        some { rules := (specRunH {} h).rules, schemas := (specRunH {} h).schemas, session := [] } := by
   have key : ∀ (h : List HItem) (st : St), Solid st → h.all plain = true →
-      ∃ st', finalSt st h = some st' ∧ st'.mem = specRun st.mem (opsOf h) ∧ Solid st' := by
+      ∃ st', finalSt st h = some st' ∧ st'.mem = specRunH st.mem h ∧ Solid st' := by
     intro h
     induction h with
     | nil => intro st hS _; exact ⟨st, rfl, rfl, hS⟩
@@ -85,14 +84,15 @@ theorem C16_acked_durable (h : List HItem) (hp : h.all plain = true) (cuts : Lis
         obtain ⟨_, hnext⟩ := runItem_solid st (.op o) hS
         have hst : (runItem st (.op o)).2 = some { mem := (step st.mem o).2.1, disk := applyAll st.disk (step st.mem o).2.2 } := rfl
         obtain ⟨st', h1, h2, h3⟩ := ih _ (hnext _ hst) hp.2
-        exact ⟨st', by simp only [finalSt, hst]; exact h1, by simpa [opsOf, specRun] using h2, h3⟩
+        exact ⟨st', by simp only [finalSt, hst]; exact h1, by simpa [specRunH] using h2, h3⟩
       | restart c =>
         obtain ⟨_, hnext⟩ := runItem_solid st (.restart c) hS
         have hrec := recover_of_ok hS.rules hS.schemas (cutsOf c)
-        have hst : (runItem st (.restart c)).2 = some { mem := st.mem, disk := crash st.disk (cutsOf c) } := by
+        have hst : (runItem st (.restart c)).2 =
+            some { mem := { rules := st.mem.rules, schemas := st.mem.schemas, session := [] }, disk := crash st.disk (cutsOf c) } := by
           simp [runItem, rebootFrom, hrec]
         obtain ⟨st', h1, h2, h3⟩ := ih _ (hnext _ hst) hp.2
-        exact ⟨st', by simp only [finalSt, hst]; exact h1, by simpa [opsOf] using h2, h3⟩
+        exact ⟨st', by simp only [finalSt, hst]; exact h1, by simpa [specRunH] using h2, h3⟩
       | opCrash o j c => simp [plain] at hp
   obtain ⟨st', h1, h2, h3⟩ := key h {} solid_init hp
   refine ⟨st', h1, h2, ?_⟩
@@ -140,7 +140,24 @@ example :
     let h : List HItem := [.op (.reg a c0), .op (.reg a c1), .restart [], .op (.sreg r s0), .op (.clear a),
       .op (.reg a { id := 3, arity := 1, bad := false }), .op (.srem r), .op (.sreg s s1), .op (.dropRel s)]
     h.all plain = true ∧
-      specRun {} (opsOf h) = { rules := [(a, [{ id := 3, arity := 1, bad := false }])], schemas := [] } := by
+      specRunH {} h = { rules := [(a, [{ id := 3, arity := 1, bad := false }])], schemas := [] } := by
+  decide
+
+/-- session schemas and shadowing, in every order (persistent then session, session then persistent, remove then
+    re-register).  `remove_schema` under a shadowing session schema removes the *session* entry only: the persistent
+    schema is still registered in memory and is what the restart reloads; a second `remove_schema` removes it for
+    good.  All of it is inside `C16_acked_durable`. -/
+example :
+    let h1 : List HItem := [.op (.supd r s0), .op (.ssupd r s1), .op (.srem r), .restart []]
+    let h2 : List HItem := [.op (.ssupd r s1), .op (.supd r s0), .op (.srem r), .op (.srem r), .restart []]
+    let h3 : List HItem := [.op (.supd r s0), .op (.ssupd r s1), .op (.srem r), .op (.srem r), .op (.ssupd r s1),
+      .op (.sreg r s1), .restart []]
+    h1.all plain = true ∧ h2.all plain = true ∧ h3.all plain = true ∧
+    run {} h1 = [.ack .ok [1, 3, 7, 9, 5], .ack .ok [], .ack (.okBool true) [1, 3, 7, 9, 5],
+      .reboot { schemas := [(r, s0)] } { schemas := [(r, s0)] } (some { schemas := [(r, s0)] })] ∧
+    (run {} h2).getLast? = some (.reboot {} {} (some {})) ∧
+    (run {} h3).getLast? = some (.reboot { schemas := [(r, s1)], session := [(r, s1)] } { schemas := [(r, s1)], session := [(r, s1)] }
+      (some { schemas := [(r, s1)] })) := by
   decide
 
 end ILV.Props.C16
